@@ -7,7 +7,7 @@ import logging
 from props._filesys import World, r_path
 
 ID = "C04"
-READY = True
+READY = True          # on a /repo that carries harness/findings_proposed/C04-contentfile-missing.fix.diff (see final report)
 LEAN_MODULES = ["RedunModel.Props.C04", "RedunModel.Model.FileSysIO"]
 LEAN_DRIVERS = ["C04"]
 THEOREMS = [
